@@ -20,12 +20,17 @@
 #include "stir/recon_buildblock/ML_estimate_component_based_normalisation.h"
 #include "stir/recon_buildblock/BinNormalisationPETFromComponents.h"
 #include "stir/stream.h"
+#include "stir/Sinogram.h"
+#include "stir/IndexRange.h"
 #include <algorithm>
 #include <cstdarg>
 #include <cmath>
 #include <map>
 #include <set>
 #include <tuple>
+#include <sys/types.h>
+#include <sys/wait.h>
+#include <unistd.h>
 
 using namespace stir;
 
@@ -68,6 +73,10 @@ candidate(bool ok, const std::string& key, const std::string& text)
 }
 
 static const char* const KEY_KL = "kl-descent:library-KL-counts-in-ring-LORs-twice";
+static const char* const KEY_BLOCK = "block-norm:fan-holds-two-crystals-of-one-block:BlockData3D-indexed-out-of-range";
+static const char* const KEY_GEO_ODD = "geo-norm:odd-number-of-transaxial-crystals-per-block";
+static const char* const KEY_ML_KL = "ml-estimate:do_KL-aborts";
+static const char* const KEY_GEO_ONE = "geo-norm:one-transaxial-crystal-per-block:division-by-zero";
 
 static std::string
 str(const char* fmt, ...)
@@ -88,6 +97,7 @@ struct Cfg
   int type; // 0: no virtual crystals, 1: transaxial virtual crystal (mMR), 2: transaxial+axial (E1080)
   int ntb, tcpb_phys, nab, acpb_phys;
   int max_delta, num_tang;
+  int abpb = 1, tbpb = 1; // axial / transaxial blocks per bucket
 };
 
 static Scanner::Type
@@ -104,7 +114,7 @@ make_block_scanner(const Cfg& c, int tof_bins = -1)
   const int tcpb = c.tcpb_phys + vt, acpb = c.acpb_phys + va;
   const int N = c.ntb * tcpb, R = c.nab * acpb - va;
   shared_ptr<Scanner> s(new Scanner(type, std::string("verif_c20"), N, R, N - 1, N - 1, 100.F + N / 4.F, 5.F, 4.F, 2.F, 0.F,
-                                    /*axial blocks per bucket*/ 1, /*transaxial blocks per bucket*/ 1, acpb, tcpb,
+                                    /*axial blocks per bucket*/ c.abpb, /*transaxial blocks per bucket*/ c.tbpb, acpb, tcpb,
                                     /*singles units*/ 1, 1, /*layers*/ 1, 0.1F, 511.F, static_cast<short>(tof_bins),
                                     tof_bins > 0 ? 100.F : -1.F, tof_bins > 0 ? 400.F : -1.F, "Cylindrical"));
   return s;
@@ -282,6 +292,7 @@ kl_pairs(const FanProjData& data, const FanProjData& est, double thr)
 struct Stats
 {
   long configs = 0, gap_configs = 0, bins = 0, entries = 0, block_skipped = 0, geo_skipped = 0, kl_runs = 0;
+  long dp_configs = 0, dp_sinograms = 0, dp_entries = 0, mcf_configs = 0, mcf_bins = 0, ml_runs = 0, block_same_block = 0, geo_odd = 0;
 } g_stats;
 
 static void
@@ -583,21 +594,34 @@ run_config(vh::Rng& rng, const Cfg& c, bool thorough)
                                  s, ax, v, tp, ra, a, rb, b, got, expected));
               }
   }
-  // multiply_crystal_factors (projection-data side) agrees with apply_efficiencies (fan side) for gap-free scanners
-  if (vt == 0 && va == 0)
-    {
-      ProjDataInMemory pdm(ex, pdi);
-      pdm.fill(0.F);
-      multiply_crystal_factors(pdm, eff, 2.F);
-      FanProjData fm;
-      make_fan_data_remove_gaps(fm, pdm);
-      for_logical(fm, [&](int ra, int a, int rb, int b) {
-        const double expected = 2. * eff[ra][a] * eff[rb][b];
-        oracle(close_rel(fm(ra, a, rb, b), expected, 4 * 3 * 5.97e-8), "multiply-crystal-factors",
-               ctx + str(" LOR (%d,%d)-(%d,%d): multiply_crystal_factors gave %g, 2*eff*eff = %g", ra, a, rb, b, fm(ra, a, rb, b),
-                         expected));
-      });
-    }
+  // multiply_crystal_factors (projection-data side, factors indexed by crystal number INCLUDING virtual crystals) agrees with
+  // apply_efficiencies (fan side, physical crystals only); the factor of a virtual crystal is irrelevant after gap removal
+  {
+    Array<2, float> eff_full(IndexRange2D(R, N));
+    for (int r = 0; r < R; ++r)
+      for (int a = 0; a < N; ++a)
+        eff_full[r][a] = (is_virtual(r, acpb, va) || is_virtual(a, tcpb, vt)) ? rng.range(4, 12) / 8.F
+                                                                             : eff[phys_index(r, acpb, va)][phys_index(a, tcpb, vt)];
+    ProjDataInMemory pdm(ex, pdi);
+    pdm.fill(0.F);
+    multiply_crystal_factors(pdm, eff_full, 2.F);
+    FanProjData fm;
+    make_fan_data_remove_gaps(fm, pdm);
+    for_logical(fm, [&](int ra, int a, int rb, int b) {
+      // (entries of the fan whose bin lies outside the tangential window of the projection data stay 0, as in the "entry" oracle)
+      const int ga = with_gaps(a, tcpb, vt), gb = with_gaps(b, tcpb, vt), gra = with_gaps(ra, acpb, va), grb = with_gaps(rb, acpb, va);
+      DetectionPositionPair<> dp(DetectionPosition<>(ga, gra, 0), DetectionPosition<>(gb, grb, 0));
+      Bin bin;
+      const bool in_window = cyl.get_bin_for_det_pos_pair(bin, dp) == Succeeded::yes && bin.segment_num() >= pdi->get_min_segment_num()
+                             && bin.segment_num() <= pdi->get_max_segment_num() && std::abs(bin.tangential_pos_num()) <= h
+                             && bin.axial_pos_num() >= pdi->get_min_axial_pos_num(bin.segment_num())
+                             && bin.axial_pos_num() <= pdi->get_max_axial_pos_num(bin.segment_num());
+      const double expected = in_window ? 2. * eff[ra][a] * eff[rb][b] : 0.;
+      oracle(close_rel(fm(ra, a, rb, b), expected, 4 * 3 * 5.97e-8), "multiply-crystal-factors",
+             ctx + str(" LOR (ring %d, det %d)-(ring %d, det %d) [with gaps (%d,%d)-(%d,%d)]: multiply_crystal_factors then gap removal gave %g, 2*eff*eff = %g", ra,
+                       a, rb, b, gra, ga, grb, gb, fm(ra, a, rb, b), expected));
+    });
+  }
 
   // fan sums
   Array<2, float> sums(IndexRange2D(Rp, Np));
@@ -662,6 +686,82 @@ run_config(vh::Rng& rng, const Cfg& c, bool thorough)
     emit(Rp * Np <= 9 ? "itereff rat" : "itereff flt", dump_tab(e4).substr(1));
     oracle(e4[zr][za] == 0.F, "dead-detector", ctx + str(" fan sum 0 must give efficiency 0, got %g", e4[zr][za]));
   }
+  // ------------------------------------------------------------------------ the versions without model (uniform model)
+  {
+    const int md = fan.get_max_delta();
+    const int nterms = (2 * md + 1) * (2 * hp + 1);
+    Array<2, float> s_nm(IndexRange2D(Rp, Np));
+    make_fan_sum_data(s_nm, eff, md, hp);
+    emit("eff" + dump_tab(eff), "ok");
+    emit("fansumsnm", dump_tab(s_nm).substr(1));
+    // ORACLE: they are the fan sums of the data generated from a model that is 1 on every LOR of the window
+    FanProjData ones(Rp, Np, md, 2 * hp + 1);
+    for_canon(ones, [&](int ra, int a, int rb, int b) { ones(ra, a, rb, b) = 1.F; });
+    FanProjData ones_eff = ones;
+    apply_efficiencies(ones_eff, eff, true);
+    Array<2, float> s_ones(IndexRange2D(Rp, Np));
+    make_fan_sum_data(s_ones, ones_eff);
+    for (int ra = 0; ra < Rp; ++ra)
+      for (int a = 0; a < Np; ++a)
+        oracle(close_rel(s_nm[ra][a], s_ones[ra][a], 8 * (nterms + 2) * 5.97e-8), "fansum-no-model",
+               ctx + str(" detector (%d,%d): make_fan_sum_data(efficiencies, %d, %d) gives %g, the fan sum of apply_efficiencies on a model of ones %g",
+                         ra, a, md, hp, s_nm[ra][a], s_ones[ra][a]));
+    // ORACLE: fixed point
+    DetectorEfficiencies e2 = eff;
+    iterate_efficiencies(e2, s_nm, md, hp);
+    for (int ra = 0; ra < Rp; ++ra)
+      for (int a = 0; a < Np; ++a)
+        oracle(close_rel(e2[ra][a], eff[ra][a], 4. * (Rp * Np) * (nterms + 3) * 5.97e-8), "fixed-point-eff-no-model",
+               ctx + str(" detector (%d,%d): efficiency %g became %g under the model-free iterate_efficiencies although the fan sums were made from it",
+                         ra, a, eff[ra][a], e2[ra][a]));
+    // correspondence + ORACLE: one iteration from a perturbed start = the iteration with the model of ones; dead detector
+    DetectorEfficiencies e3(IndexRange2D(Rp, Np));
+    for (int r = 0; r < Rp; ++r)
+      for (int a = 0; a < Np; ++a)
+        e3[r][a] = rng.range(4, 12) / 8.F;
+    Array<2, float> sums3 = s_nm;
+    const int zr = rng.range(0, Rp - 1), za = rng.range(0, Np - 1);
+    sums3[zr][za] = 0.F;
+    emit("eff" + dump_tab(e3), "ok");
+    emit("sums" + dump_tab(sums3), "ok");
+    DetectorEfficiencies e4 = e3, e5 = e3;
+    iterate_efficiencies(e4, sums3, md, hp);
+    emit(Rp * Np <= 9 ? "itereffnm rat" : "itereffnm flt", dump_tab(e4).substr(1));
+    iterate_efficiencies(e5, sums3, ones);
+    for (int ra = 0; ra < Rp; ++ra)
+      for (int a = 0; a < Np; ++a)
+        oracle(close_rel(e4[ra][a], e5[ra][a], 8. * (Rp * Np) * (nterms + 3) * 5.97e-8), "iterate-eff-no-model",
+               ctx + str(" detector (%d,%d): model-free iterate_efficiencies gives %g, iterate_efficiencies with a model of ones %g", ra, a,
+                         e4[ra][a], e5[ra][a]));
+    oracle(e4[zr][za] == 0.F, "dead-detector-no-model", ctx + str(" fan sum 0 must give efficiency 0, got %g", e4[zr][za]));
+    // ORACLE: KL descent with the uniform model, symmetric Poisson data
+    FanProjData data(Rp, Np, md, 2 * hp + 1);
+    {
+      std::vector<float> vals;
+      for_canon(ones_eff, [&](int ra, int a, int rb, int b) {
+        if (rb > ra || a < b % Np)
+          vals.push_back(poisson(rng, 8. * ones_eff(ra, a, rb, b)));
+      });
+      std::size_t k = 0;
+      fill_sym(data, [&]() { return vals[k++]; });
+    }
+    Array<2, float> psums(IndexRange2D(Rp, Np));
+    make_fan_sum_data(psums, data);
+    DetectorEfficiencies e(IndexRange2D(Rp, Np));
+    e.fill(std::sqrt(psums.sum() / ones.sum()));
+    double prev = -1;
+    for (int it = 0; it <= 4; ++it)
+      {
+        FanProjData est = ones;
+        apply_efficiencies(est, e, true);
+        const double kl = kl_pairs(data, est, 0.);
+        if (it > 0)
+          oracle(kl <= prev * (1 + 1e-5) + 1e-6, "kl-descent-no-model",
+                 ctx + str(" model-free efficiency iteration %d: KL over detector pairs went from %.9g to %.9g", it, prev, kl));
+        prev = kl;
+        iterate_efficiencies(e, psums, md, hp);
+      }
+  }
   {
     // Poisson data, symmetric; KL(data || eff*eff*model) over all detector pairs must not increase
     ++g_stats.kl_runs;
@@ -713,7 +813,29 @@ run_config(vh::Rng& rng, const Cfg& c, bool thorough)
   }
 
   // ------------------------------------------------------------------------------------------------------- block factors
-  if (hp <= Np / 2 - tcpb_p && ntb >= 2)
+  // The block data are made as ML_estimate_component_based_normalisation makes them.  When the fan holds two crystals of one block
+  // (and the number of blocks is even) the pair (block, same block) has no entry in them: apply_block_norm / make_block_data would
+  // index BlockData3D out of range (undefined behaviour; asked here through the implementation's own is_in_data, not executed).
+  bool block_in_range = true;
+  {
+    const BlockData3D probe(nab, ntb, nab - 1, ntb - 1);
+    int bad[4] = { 0, 0, 0, 0 };
+    for_canon(model, [&](int ra, int a, int rb, int b) {
+      if (block_in_range && !probe.is_in_data(ra / acpb_p, a / tcpb_p, rb / acpb_p, b / tcpb_p))
+        {
+          block_in_range = false;
+          bad[0] = ra, bad[1] = a, bad[2] = rb, bad[3] = b;
+        }
+    });
+    candidate(block_in_range, KEY_BLOCK,
+              ctx + str(" FanProjData(%d,%d,%d,%d) with BlockData3D(%d,%d,%d,%d): detectors (%d,%d) and (%d,%d) of the fan lie in blocks (%d,%d) and (%d,%d), "
+                        "BlockData3D::is_in_data(%d,%d,%d,%d) is false, so apply_block_norm / make_block_data / iterate_block_norm read and write outside the array",
+                        Rp, Np, fan.get_max_delta(), 2 * hp + 1, nab, ntb, nab - 1, ntb - 1, bad[0], bad[1], bad[2], bad[3] % Np, bad[0] / acpb_p,
+                        bad[1] / tcpb_p, bad[2] / acpb_p, (bad[3] / tcpb_p) % ntb, bad[0] / acpb_p, bad[1] / tcpb_p, bad[2] / acpb_p, bad[3] / tcpb_p));
+    if (!block_in_range)
+      ++g_stats.block_same_block;
+  }
+  if (block_in_range)
     {
       BlockData3D blk(nab, ntb, nab - 1, ntb - 1);
       fill_sym(blk, [&]() { return rng.range(4, 12) / 8.F; });
@@ -767,8 +889,40 @@ run_config(vh::Rng& rng, const Cfg& c, bool thorough)
     ++g_stats.block_skipped;
 
   // --------------------------------------------------------------------------------------------------- geometric factors
-  if (tcpb_p % 2 == 0 && tcpb_p >= 2)
+  // The geometric data are made as ML_estimate_component_based_normalisation makes them: GeoData3D(.., tcpb/2, ..).  With an odd
+  // number of crystals per block the functions work with blocks of 2*(tcpb/2) crystals: the oracles that need the block structure
+  // are reported under one key; with 1 crystal per block they divide by zero (evaluated in a child process).
+  const bool geo_odd = tcpb_p % 2 != 0;
+  if (tcpb_p == 1)
     {
+      std::fflush(g_ops);
+      std::fflush(g_out);
+      std::fflush(g_orc);
+      const pid_t pid = fork();
+      if (pid == 0)
+        {
+          GeoData3D mg(acpb_p, tcpb_p / 2, Rp, Np);
+          make_geo_data(mg, model);
+          _exit(0);
+        }
+      int status = 0;
+      waitpid(pid, &status, 0);
+      candidate(WIFEXITED(status) && WEXITSTATUS(status) == 0, KEY_GEO_ONE,
+                ctx + str(" make_geo_data(GeoData3D(%d,%d,%d,%d), FanProjData) as called by ML_estimate_component_based_normalisation for 1 transaxial crystal per "
+                          "block terminates the process (%s %d): num_transaxial_detectors / (2*0)",
+                          acpb_p, tcpb_p / 2, Rp, Np, WIFSIGNALED(status) ? "signal" : "exit", WIFSIGNALED(status) ? WTERMSIG(status) : WEXITSTATUS(status)));
+      ++g_stats.geo_skipped;
+    }
+  else
+    {
+      if (geo_odd)
+        ++g_stats.geo_odd;
+      auto geo_oracle = [&](bool ok, const std::string& kind, const std::string& text) {
+        if (geo_odd)
+          candidate(ok, KEY_GEO_ODD, "[" + kind + "] " + text);
+        else
+          oracle(ok, kind, text);
+      };
       GeoData3D g0(acpb_p, tcpb_p / 2, Rp, Np);
       for_geo(model, g0, [&](int ra, int a, int rb, int b) { g0(ra, a, rb, b) = rng.range(4, 12) / 8.F; });
       emit(str("gdims %d %d %d %d", acpb_p, tcpb_p / 2, Rp, Np), "ok");
@@ -781,7 +935,14 @@ run_config(vh::Rng& rng, const Cfg& c, bool thorough)
       apply_geo_norm(back, g0, false);
       emit("fan" + dump_fan(d3), "ok");
       emit("appgeo 0", dump_fan(back).substr(1));
-      check_apply("geo", model, d3, back);
+      if (!geo_odd)
+        check_apply("geo", model, d3, back);
+      else // (blocks of 2*(tcpb/2) crystals need not tile the ring: entries outside get the factor 0 and cannot be restored)
+        for_canon(model, [&](int ra, int a, int rb, int b) {
+          geo_oracle(close_rel(back(ra, a, rb, b), model(ra, a, rb, b), 4 * 2 * 5.97e-8), "unapply-geo",
+                     ctx + str(" entry (%d,%d,%d,%d): %g, after apply_geo_norm %g, after un-apply %g", ra, a, rb, b % Np, model(ra, a, rb, b),
+                               d3(ra, a, rb, b), back(ra, a, rb, b)));
+        });
       // measured geo data and one iteration (correspondence)
       GeoData3D mg(acpb_p, tcpb_p / 2, Rp, Np), eg(acpb_p, tcpb_p / 2, Rp, Np);
       make_geo_data(mg, d3);
@@ -801,7 +962,7 @@ run_config(vh::Rng& rng, const Cfg& c, bool thorough)
           const double f1 = static_cast<double>(d4(ra, a, rb, b)) / model(ra, a, rb, b);
           const double f2
               = static_cast<double>(static_cast<const FanProjData&>(d4)(ra, a2, rb, b2)) / static_cast<const FanProjData&>(model)(ra, a2, rb, b2);
-          oracle(close_rel(f1, f2, 16 * 5.97e-8), "geo-class",
+          geo_oracle(close_rel(f1, f2, 16 * 5.97e-8), "geo-class",
                  ctx + str(" entries (%d,%d,%d,%d) and (%d,%d,%d,%d) differ by one block but get geometric factors %g and %g", ra,
                            a, rb, b % Np, ra, a2, rb, b2, f1, f2));
         });
@@ -812,15 +973,441 @@ run_config(vh::Rng& rng, const Cfg& c, bool thorough)
       // (regression guard: before commit 58079aa5c make_geo_data dropped the axially mirrored LORs when exactly one ring of
       // the LOR was the central ring, which broke this for odd ring counts >= 5)
       for_geo(model, eg, [&](int ra, int a, int rb, int b) {
-        oracle(close_rel(eg2(ra, a, rb, b), eg(ra, a, rb, b), 4. * (2 * 4 * nab * ntb + 6) * 5.97e-8), "fixed-point-geo",
+        geo_oracle(close_rel(eg2(ra, a, rb, b), eg(ra, a, rb, b), 4. * (2 * 4 * nab * ntb + 6) * 5.97e-8), "fixed-point-geo",
                ctx + str(" geometric factor (%d,%d,%d,%d): %g became %g although data = geo*model", ra, a, rb, b % Np,
                          eg(ra, a, rb, b), eg2(ra, a, rb, b)));
       });
     }
-  else
-    ++g_stats.geo_skipped;
 }
 
+
+
+// ---------------------------------------------------------------------------------------------------------------------
+// the DetPairData family (one sinogram pair as detector pairs of a ring; virtual crystals are ordinary detectors here)
+
+static void
+fill_distinct(ProjDataInMemory& pd, vh::Rng& rng)
+{
+  const long P = 1000003; // prime > number of bins, < 2^24: values are exact floats
+  const long K = 1 + static_cast<long>(rng.next() % (P - 1));
+  long idx = 0;
+  for (int s = pd.get_min_segment_num(); s <= pd.get_max_segment_num(); ++s)
+    {
+      SegmentBySinogram<float> seg = pd.get_empty_segment_by_sinogram(s);
+      for (int ax = seg.get_min_axial_pos_num(); ax <= seg.get_max_axial_pos_num(); ++ax)
+        for (int v = seg.get_min_view_num(); v <= seg.get_max_view_num(); ++v)
+          for (int tp = seg.get_min_tangential_pos_num(); tp <= seg.get_max_tangential_pos_num(); ++tp)
+            seg[ax][v][tp] = static_cast<float>(1 + ((++idx) * K) % P);
+      pd.set_segment(seg);
+    }
+}
+
+template <class F>
+static void
+for_dp(const DetPairData& dp, F f)
+{
+  for (int a = dp.get_min_index(); a <= dp.get_max_index(); ++a)
+    for (int b = dp.get_min_index(a); b <= dp.get_max_index(a); ++b)
+      f(a, b);
+}
+
+static std::string
+dump_dp(const DetPairData& dp)
+{
+  std::string s;
+  for_dp(dp, [&](int a, int b) {
+    s += ' ';
+    s += vh::hex(dp(a, b));
+  });
+  return s;
+}
+
+static std::string
+dump_vec(const Array<1, float>& v)
+{
+  std::string s;
+  for (int a = v.get_min_index(); a <= v.get_max_index(); ++a)
+    {
+      s += ' ';
+      s += vh::hex(v[a]);
+    }
+  return s;
+}
+
+// symmetric fill: (a,b) and (b,a) are the same LOR (segment 0), two storage entries
+template <class G>
+static void
+fill_sym_dp(DetPairData& dp, G gen)
+{
+  const int N = dp.get_num_detectors();
+  const DetPairData& cdp = dp;
+  for_dp(cdp, [&](int a, int b) {
+    if (a < b % N)
+      {
+        const float v = gen();
+        dp(a, b) = v;
+        dp(b % N, a) = v;
+      }
+  });
+}
+
+static void
+run_detpair(vh::Rng& rng, const Cfg& c, bool thorough)
+{
+  shared_ptr<Scanner> sc = make_block_scanner(c);
+  const int N = sc->get_num_detectors_per_ring();
+  const int cpb = sc->get_num_transaxial_crystals_per_block(), nb = sc->get_num_transaxial_blocks();
+  shared_ptr<ProjDataInfo> pdi = vh::make_pdi(sc, 1, c.max_delta, N / 2, c.num_tang, false);
+  const auto& cyl = dynamic_cast<const ProjDataInfoCylindricalNoArcCorr&>(*pdi);
+  const int min_t = pdi->get_min_tangential_pos_num(), max_t = pdi->get_max_tangential_pos_num();
+  const std::string ctx = str("[DetPairData type=%d N=%d rings=%d blocks=%d crystals/block=%d max_delta=%d num_tang=%d]", c.type, N,
+                              sc->get_num_rings(), nb, cpb, c.max_delta, c.num_tang);
+  ++g_stats.dp_configs;
+  shared_ptr<ExamInfo> ex = std::make_shared<ExamInfo>();
+  ProjDataInMemory pd(ex, pdi);
+  fill_distinct(pd, rng);
+  const double u = 5.97e-8;
+
+  // ---------------------------------------------------------------------------- projection data <-> detector pairs
+  for (int seg = 0; seg <= pdi->get_max_segment_num(); ++seg)
+    for (int rep = 0; rep < (thorough ? 3 : 2); ++rep)
+      {
+        const int ax = rng.range(pdi->get_min_axial_pos_num(seg), pdi->get_max_axial_pos_num(seg));
+        ++g_stats.dp_sinograms;
+        DetPairData dp;
+        make_det_pair_data(dp, pd, seg, ax);
+        const DetPairData& cdp = dp;
+        const int h = (dp.get_max_index(0) - dp.get_min_index(0)) / 2;
+        emit(str("dpcfg %d %d %d", N, min_t, max_t), str("%d %d", dp.get_num_detectors(), h));
+        const Sinogram<float> pos = pd.get_sinogram(ax, seg), neg = pd.get_sinogram(ax, -seg);
+        std::string op = "mkdp", op2 = str("setdp %d", seg != 0 ? 1 : 0);
+        for (int v = 0; v < N / 2; ++v)
+          for (int tp = min_t; tp <= max_t; ++tp)
+            {
+              int a = 0, b = 0;
+              cyl.get_det_num_pair_for_view_tangential_pos_num(a, b, v, tp);
+              op += str(" %d %d ", a, b) + vh::hex(pos[v][tp]) + " " + vh::hex(neg[v][tp]);
+              op2 += str(" %d %d", a, b);
+            }
+        emit(op, dump_dp(dp).substr(1));
+        // and back, into projection data filled with a marker
+        ProjDataInMemory pd2(ex, pdi);
+        pd2.fill(-7.F);
+        set_det_pair_data(pd2, dp, seg, ax);
+        const Sinogram<float> pos2 = pd2.get_sinogram(ax, seg), neg2 = pd2.get_sinogram(ax, -seg);
+        std::string ans2;
+        for (int v = 0; v < N / 2; ++v)
+          for (int tp = min_t; tp <= max_t; ++tp)
+            {
+              ans2 += (ans2.empty() ? "" : " ") + vh::hex(pos2[v][tp]);
+              if (seg != 0)
+                ans2 += " " + vh::hex(neg2[v][tp]);
+              // ORACLE: the conversion to detector pairs and back is lossless
+              oracle(pos2[v][tp] == pos[v][tp] && (seg == 0 || neg2[v][tp] == neg[v][tp]), "dp-roundtrip",
+                     ctx + str(" segment +-%d axial pos %d view %d tang %d: %g / %g before, %g / %g after proj->det pairs->proj", seg, ax,
+                               v, tp, pos[v][tp], neg[v][tp], pos2[v][tp], neg2[v][tp]));
+            }
+        emit(op2, ans2);
+        { // ORACLE: no other sinogram is written
+          const int s2 = rng.range(pdi->get_min_segment_num(), pdi->get_max_segment_num());
+          const int ax2 = rng.range(pdi->get_min_axial_pos_num(s2), pdi->get_max_axial_pos_num(s2));
+          if (!((s2 == seg || s2 == -seg) && ax2 == ax))
+            {
+              const Sinogram<float> other = pd2.get_sinogram(ax2, s2);
+              bool untouched = true;
+              for (int v = 0; v < N / 2; ++v)
+                for (int tp = min_t; tp <= max_t; ++tp)
+                  if (other[v][tp] != -7.F)
+                    untouched = false;
+              oracle(untouched, "dp-set-other-sinogram",
+                     ctx + str(" set_det_pair_data(segment %d, axial pos %d) changed sinogram (segment %d, axial pos %d)", seg, ax, s2, ax2));
+            }
+        }
+        // ORACLE: each entry is the value of the bin that the geometry assigns to that detector pair
+        int r1 = 0, r2 = 0;
+        cyl.get_ring_pair_for_segment_axial_pos_num(r1, r2, seg, ax);
+        for_dp(cdp, [&](int x, int yy) {
+          const int y = yy % N;
+          ++g_stats.dp_entries;
+          DetectionPositionPair<> dpp(DetectionPosition<>(x, r1, 0), DetectionPosition<>(y, r2, 0));
+          Bin bin;
+          float expected = 0.F;
+          if (cyl.get_bin_for_det_pos_pair(bin, dpp) == Succeeded::yes && bin.segment_num() >= pdi->get_min_segment_num()
+              && bin.segment_num() <= pdi->get_max_segment_num() && bin.tangential_pos_num() >= min_t && bin.tangential_pos_num() <= max_t
+              && bin.axial_pos_num() >= pdi->get_min_axial_pos_num(bin.segment_num())
+              && bin.axial_pos_num() <= pdi->get_max_axial_pos_num(bin.segment_num()))
+            expected = pd.get_bin_value(bin);
+          oracle(cdp(x, y) == expected, "dp-entry",
+                 ctx + str(" segment +-%d axial pos %d: det_pair_data(%d,%d)=%g but the bin of detectors (ring %d, %d)-(ring %d, %d) holds %g", seg,
+                           ax, x, y, cdp(x, y), r1, x, r2, y, expected));
+          oracle(cdp.is_in_data(x, y), "dp-is-in-data", ctx + str(" is_in_data(%d,%d) is false for an entry of the loop nest", x, y));
+        });
+      }
+
+  // ---------------------------------------------------------------------------- factors
+  DetPairData model;
+  make_det_pair_data(model, *pdi, 0, 0);
+  const DetPairData& cmodel = model;
+  const int h = (model.get_max_index(0) - model.get_min_index(0)) / 2;
+  emit(str("dpcfg %d %d %d", N, min_t, max_t), str("%d %d", model.get_num_detectors(), h));
+  {
+    bool zero = true;
+    for_dp(cmodel, [&](int a, int b) { zero = zero && cmodel(a, b) == 0.F; });
+    oracle(zero, "dp-make-empty", ctx + " make_det_pair_data(ProjDataInfo) is not filled with 0");
+  }
+  fill_sym_dp(model, [&]() { return static_cast<float>(rng.range(1, 200)); });
+  Array<1, float> eff(0, N - 1);
+  for (int a = 0; a < N; ++a)
+    eff[a] = rng.range(4, 12) / 8.F;
+  emit("dpfan" + dump_dp(model), "ok");
+  emit("dpeff" + dump_vec(eff), "ok");
+
+  auto check_unapply = [&](const char* what, const DetPairData& before, const DetPairData& applied, const DetPairData& restored) {
+    for_dp(before, [&](int a, int b) {
+      oracle(close_rel(restored(a, b), before(a, b), 4 * 2 * u), std::string("dp-unapply-") + what,
+             ctx + str(" entry (%d,%d): %g, after apply %g, after un-apply %g", a, b % N, before(a, b), applied(a, b), restored(a, b)));
+    });
+  };
+
+  DetPairData data_eff = model;
+  apply_efficiencies(data_eff, eff, true);
+  emit("dpappeff 1", dump_dp(data_eff).substr(1));
+  {
+    DetPairData back = data_eff;
+    apply_efficiencies(back, eff, false);
+    emit("dpfan" + dump_dp(data_eff), "ok");
+    emit("dpappeff 0", dump_dp(back).substr(1));
+    emit("dpfan" + dump_dp(model), "ok");
+    check_unapply("eff", model, data_eff, back);
+    const DetPairData& cd = data_eff;
+    for_dp(cmodel, [&](int a, int b) {
+      const double expected = static_cast<double>(cmodel(a, b)) * eff[a] * eff[b % N];
+      oracle(close_rel(cd(a, b), expected, 4 * 2 * u), "dp-apply-eff-product",
+             ctx + str(" entry (%d,%d): %g * eff %g * eff %g gave %g", a, b % N, cmodel(a, b), eff[a], eff[b % N], cd(a, b)));
+    });
+  }
+  // fan sums
+  Array<1, float> sums(0, N - 1);
+  make_fan_sum_data(sums, data_eff);
+  emit("dpfan" + dump_dp(data_eff), "ok");
+  emit("dpfansums", dump_vec(sums).substr(1));
+  {
+    const DetPairData& cd = data_eff;
+    for (int a = 0; a < N; ++a)
+      {
+        double e = 0;
+        for (int o = -h; o <= h; ++o)
+          e += cd(a, (a + N / 2 + o) % N);
+        oracle(close_rel(sums[a], e, 4 * (2 * h + 1) * u), "dp-fansum", ctx + str(" detector %d: fan sum %g, sum over its LORs %g", a, sums[a], e));
+      }
+  }
+  // efficiencies: fixed point, one step from a perturbed start with a dead detector, KL descent
+  {
+    Array<1, float> e2 = eff;
+    iterate_efficiencies(e2, sums, model);
+    for (int a = 0; a < N; ++a)
+      oracle(close_rel(e2[a], eff[a], 4. * N * (2 * h + 4) * u), "dp-fixed-point-eff",
+             ctx + str(" detector %d: efficiency %g became %g although data = eff*eff*model", a, eff[a], e2[a]));
+    Array<1, float> e3(0, N - 1);
+    for (int a = 0; a < N; ++a)
+      e3[a] = rng.range(4, 12) / 8.F;
+    Array<1, float> sums3 = sums;
+    const int za = rng.range(0, N - 1);
+    sums3[za] = 0.F;
+    emit("dpfan" + dump_dp(model), "ok");
+    emit("dpeff" + dump_vec(e3), "ok");
+    emit("dpsums" + dump_vec(sums3), "ok");
+    Array<1, float> e4 = e3;
+    iterate_efficiencies(e4, sums3, model);
+    emit(N <= 8 ? "dpitereff rat" : "dpitereff flt", dump_vec(e4).substr(1));
+    oracle(e4[za] == 0.F, "dp-dead-detector", ctx + str(" fan sum 0 must give efficiency 0, got %g", e4[za]));
+  }
+  {
+    DetPairData mean = model;
+    apply_efficiencies(mean, eff, true);
+    DetPairData data = model;
+    {
+      const DetPairData& cmean = mean;
+      std::vector<float> vals;
+      for_dp(cmean, [&](int a, int b) {
+        if (a < b % N)
+          vals.push_back(poisson(rng, 0.25 * cmean(a, b)));
+      });
+      std::size_t k = 0;
+      fill_sym_dp(data, [&]() { return vals[k++]; });
+    }
+    Array<1, float> psums(0, N - 1);
+    make_fan_sum_data(psums, data);
+    Array<1, float> e(0, N - 1);
+    e.fill(std::sqrt(psums.sum() / model.sum()));
+    double prev = -1;
+    for (int it = 0; it <= 5; ++it)
+      {
+        DetPairData est = model;
+        apply_efficiencies(est, e, true);
+        // (a,b) and (b,a) are both stored and both summed: KL(DetPairData) is exactly twice the sum over detector pairs
+        const double kl = KL(data, est, 0.);
+        if (it > 0)
+          oracle(kl <= prev * (1 + 1e-5) + 1e-6, "dp-kl-descent",
+                 ctx + str(" efficiency iteration %d: KL(DetPairData) between symmetric data and the product model went from %.9g to %.9g", it,
+                           prev, kl));
+        if (it == 1)
+          {
+            emit("dpfan" + dump_dp(data), "ok");
+            emit("dpfan2" + dump_dp(est), "ok");
+            emit("dpkl 0x0p+0", vh::hex(kl));
+            emit("dpkl 0x1p+2", vh::hex(KL(data, est, 4.)));
+          }
+        prev = kl;
+        iterate_efficiencies(e, psums, model);
+      }
+  }
+  // block factors
+  {
+    BlockData blk(IndexRange2D(nb, nb)), mb(IndexRange2D(nb, nb)), eb(IndexRange2D(nb, nb));
+    for (int i = 0; i < nb; ++i)
+      for (int j = 0; j < nb; ++j)
+        blk[i][j] = rng.range(4, 12) / 8.F;
+    emit(str("dpblk %d", nb) + dump_tab(blk), "ok");
+    emit("dpfan" + dump_dp(model), "ok");
+    DetPairData d2 = model;
+    apply_block_norm(d2, blk, true);
+    emit("dpappblk 1", dump_dp(d2).substr(1));
+    DetPairData back = d2;
+    apply_block_norm(back, blk, false);
+    emit("dpfan" + dump_dp(d2), "ok");
+    emit("dpappblk 0", dump_dp(back).substr(1));
+    check_unapply("block", model, d2, back);
+    const DetPairData& cd2 = d2;
+    for_dp(cmodel, [&](int a, int b) {
+      const double f = static_cast<double>(cd2(a, b)) / cmodel(a, b);
+      const double expected = blk[a / cpb][(b % N) / cpb];
+      oracle(close_rel(f, expected, 8 * u), "dp-apply-block-factor",
+             ctx + str(" entry (%d,%d): factor %g, factor of blocks (%d,%d) %g", a, b % N, f, a / cpb, (b % N) / cpb, expected));
+    });
+    make_block_data(mb, d2);
+    emit("dpmkblk", dump_tab(mb).substr(1));
+    iterate_block_norm(eb, mb, model);
+    emit("dpblk2" + dump_tab(mb), "ok");
+    emit("dpfan" + dump_dp(model), "ok");
+    emit("dpiterblk", dump_tab(eb).substr(1));
+    for (int i = 0; i < nb; ++i)
+      for (int j = 0; j < nb; ++j)
+        if (mb[i][j] != 0)
+          oracle(close_rel(eb[i][j], blk[i][j], 4. * (2 * cpb * cpb + 6) * u), "dp-fixed-point-block",
+                 ctx + str(" block pair (%d,%d): factor %g became %g although data = block*model", i, j, blk[i][j], eb[i][j]));
+  }
+  // geometric factors
+  if (cpb % 2 == 0 && cpb >= 2)
+    {
+      const int half = cpb / 2;
+      GeoData g0(IndexRange2D(half, N)), mg(IndexRange2D(half, N)), eg(IndexRange2D(half, N));
+      for (int i = 0; i < half; ++i)
+        for (int j = 0; j < N; ++j)
+          g0[i][j] = rng.range(4, 12) / 8.F;
+      emit(str("dpgeo %d", half) + dump_tab(g0), "ok");
+      emit("dpfan" + dump_dp(model), "ok");
+      DetPairData d3 = model;
+      apply_geo_norm(d3, g0, true);
+      emit("dpappgeo 1", dump_dp(d3).substr(1));
+      DetPairData back = d3;
+      apply_geo_norm(back, g0, false);
+      emit("dpfan" + dump_dp(d3), "ok");
+      emit("dpappgeo 0", dump_dp(back).substr(1));
+      check_unapply("geo", model, d3, back);
+      const DetPairData& cd3 = d3;
+      // ORACLE: geometric class: a block translation and the mirror image get the same factor
+      for_dp(cmodel, [&](int a, int b) {
+        const double f = static_cast<double>(cd3(a, b)) / cmodel(a, b);
+        const int a2 = (a + cpb) % N, b2 = (b + cpb) % N, am = N - 1 - a, bm = (2 * N - 1 - b) % N;
+        const double f2 = static_cast<double>(cd3(a2, b2)) / cmodel(a2, b2), fm = static_cast<double>(cd3(am, bm)) / cmodel(am, bm);
+        oracle(close_rel(f, f2, 16 * u) && close_rel(f, fm, 16 * u), "dp-geo-class",
+               ctx + str(" entry (%d,%d) has geometric factor %g, its block translation (%d,%d) %g, its mirror image (%d,%d) %g", a, b % N, f,
+                         a2, b2, f2, am, bm, fm));
+        if (a < half)
+          oracle(close_rel(f, g0[a][b % N], 8 * u), "dp-apply-geo-factor",
+                 ctx + str(" entry (%d,%d) of the first half block: factor %g, geometric factor %g", a, b % N, f, g0[a][b % N]));
+      });
+      make_geo_data(mg, d3);
+      emit("dpmkgeo", dump_tab(mg).substr(1));
+      iterate_geo_norm(eg, mg, model);
+      emit("dpgeo2" + dump_tab(mg), "ok");
+      emit("dpfan" + dump_dp(model), "ok");
+      emit("dpitergeo", dump_tab(eg).substr(1));
+      for (int i = 0; i < half; ++i)
+        for (int bb = model.get_min_index(i); bb <= model.get_max_index(i); ++bb)
+          oracle(close_rel(eg[i][bb % N], g0[i][bb % N], 4. * (2 * (2 * nb + 3) + 4) * u), "dp-fixed-point-geo",
+                 ctx + str(" geometric factor [%d][%d]: %g became %g although data = geo*model", i, bb % N, g0[i][bb % N], eg[i][bb % N]));
+    }
+}
+
+// ---------------------------------------------------------------------------------------------------------------------
+// multiply_crystal_factors on compressed / TOF data and scanners with virtual crystals: each bin is set to
+// global_factor (/ number of TOF bins) times the sum, over the detector pairs of the bin, of the product of the two factors
+
+static void
+run_mcf(vh::Rng& rng, const Cfg& c, int span, int mash, bool tof)
+{
+  shared_ptr<Scanner> sc = make_block_scanner(c, tof ? 5 : -1);
+  const int N = sc->get_num_detectors_per_ring(), R = sc->get_num_rings();
+  shared_ptr<ProjDataInfo> pdi = vh::make_pdi(sc, span, c.max_delta, N / 2 / mash, c.num_tang, false, tof ? 1 : 0);
+  const std::string ctx = str("[multiply_crystal_factors type=%d N=%d rings=%d span=%d max_delta=%d view mashing=%d num_tang=%d TOF bins=%d]",
+                              c.type, N, R, span, c.max_delta, mash, c.num_tang, pdi->get_num_tof_poss());
+  ++g_stats.mcf_configs;
+  shared_ptr<ExamInfo> ex = std::make_shared<ExamInfo>();
+  Array<2, float> eff(IndexRange2D(R, N));
+  for (int r = 0; r < R; ++r)
+    for (int a = 0; a < N; ++a)
+      eff[r][a] = rng.range(4, 12) / 8.F;
+  const float gf = rng.range(1, 6) / 2.F;
+  ProjDataInMemory pdm(ex, pdi);
+  pdm.fill(-5.F);
+  multiply_crystal_factors(pdm, eff, gf);
+
+  shared_ptr<ProjDataInfo> nontof(pdi->create_non_tof_clone());
+  const auto& cyl = dynamic_cast<const ProjDataInfoCylindricalNoArcCorr&>(*nontof);
+  typedef std::tuple<int, int, int, int> B4;
+  std::map<B4, std::pair<double, int>> expected;
+  for (int ra = 0; ra < R; ++ra)
+    for (int a = 0; a < N; ++a)
+      for (int rb = ra; rb < R; ++rb)
+        for (int b = 0; b < N; ++b)
+          {
+            if (a == b || (rb == ra && b < a))
+              continue; // every unordered pair of detectors once
+            DetectionPositionPair<> dpp(DetectionPosition<>(a, ra, 0), DetectionPosition<>(b, rb, 0));
+            Bin bin;
+            if (cyl.get_bin_for_det_pos_pair(bin, dpp) != Succeeded::yes)
+              continue;
+            if (bin.segment_num() < nontof->get_min_segment_num() || bin.segment_num() > nontof->get_max_segment_num()
+                || bin.tangential_pos_num() < nontof->get_min_tangential_pos_num()
+                || bin.tangential_pos_num() > nontof->get_max_tangential_pos_num()
+                || bin.axial_pos_num() < nontof->get_min_axial_pos_num(bin.segment_num())
+                || bin.axial_pos_num() > nontof->get_max_axial_pos_num(bin.segment_num()))
+              continue;
+            auto& e = expected[B4(bin.segment_num(), bin.axial_pos_num(), bin.view_num(), bin.tangential_pos_num())];
+            e.first += static_cast<double>(eff[ra][a]) * eff[rb][b];
+            e.second += 1;
+          }
+  const int ntof = pdi->get_num_tof_poss();
+  for (int s = pdi->get_min_segment_num(); s <= pdi->get_max_segment_num(); ++s)
+    for (int ax = pdi->get_min_axial_pos_num(s); ax <= pdi->get_max_axial_pos_num(s); ++ax)
+      for (int k = pdi->get_min_tof_pos_num(); k <= pdi->get_max_tof_pos_num(); ++k)
+        {
+          const Sinogram<float> sino = pdm.get_sinogram(ax, s, false, k);
+          for (int v = pdi->get_min_view_num(); v <= pdi->get_max_view_num(); ++v)
+            for (int tp = pdi->get_min_tangential_pos_num(); tp <= pdi->get_max_tangential_pos_num(); ++tp)
+              {
+                ++g_stats.mcf_bins;
+                const auto it = expected.find(B4(s, ax, v, tp));
+                const double e = it == expected.end() ? 0. : it->second.first * gf / ntof;
+                const int n = it == expected.end() ? 0 : it->second.second;
+                oracle(close_rel(sino[v][tp], e, 4. * (2 * n + 3) * 5.97e-8), "multiply-crystal-factors-bin",
+                       ctx + str(" bin(seg=%d ax=%d view=%d tang=%d tof=%d): %g, but %g/%d * sum over its %d detector pairs of eff*eff = %g", s, ax, v,
+                                 tp, k, sino[v][tp], gf, ntof, n, e));
+              }
+        }
+}
 
 // ---------------------------------------------------------------------------------------------------------------------
 // end to end: ML_estimate_component_based_normalisation on a tiny scanner, output files under <implfile>_ml*
@@ -836,18 +1423,30 @@ read_array(A& a, const std::string& filename)
   return static_cast<bool>(in);
 }
 
-static void
-run_end_to_end(vh::Rng& rng, const Cfg& c, const std::string& prefix, bool poisson_data)
+struct MLFlags
 {
+  bool do_geo = true, do_block = true, sym_per_block = true, do_KL = false;
+};
+
+static void
+run_end_to_end(vh::Rng& rng, const Cfg& c, const std::string& prefix, bool poisson_data, const MLFlags fl = MLFlags())
+{
+  ++g_stats.ml_runs;
   shared_ptr<Scanner> sc = make_block_scanner(c);
   const int N = sc->get_num_detectors_per_ring();
   shared_ptr<ProjDataInfo> pdi = vh::make_pdi(sc, 1, c.max_delta, N / 2, c.num_tang, false);
   shared_ptr<ExamInfo> ex = std::make_shared<ExamInfo>();
-  const std::string ctx = str("[ML_estimate type=%d ntb=%d tcpb_phys=%d nab=%d acpb_phys=%d max_delta=%d num_tang=%d %s]", c.type, c.ntb,
-                              c.tcpb_phys, c.nab, c.acpb_phys, c.max_delta, c.num_tang, poisson_data ? "Poisson" : "exact");
+  const std::string ctx
+      = str("[ML_estimate type=%d ntb=%d tcpb_phys=%d nab=%d acpb_phys=%d blocks/bucket=%dx%d max_delta=%d num_tang=%d %s do_geo=%d do_block=%d "
+            "do_symmetry_per_block=%d do_KL=%d]",
+            c.type, c.ntb, c.tcpb_phys, c.nab, c.acpb_phys, c.abpb, c.tbpb, c.max_delta, c.num_tang, poisson_data ? "Poisson" : "exact", fl.do_geo,
+            fl.do_block, fl.sym_per_block, fl.do_KL);
   const int vt = sc->get_num_virtual_transaxial_crystals_per_block(), va = sc->get_num_virtual_axial_crystals_per_block();
   const int acpb_p = sc->get_num_axial_crystals_per_block() - va, tcpb_p = sc->get_num_transaxial_crystals_per_block() - vt;
   const int nab = sc->get_num_axial_blocks(), ntb = sc->get_num_transaxial_blocks();
+  // the basic unit of the geometric symmetry as documented: a block, or (do_symmetry_per_block == false and several buckets) a bucket
+  const int unit_a = (!fl.sym_per_block && sc->get_num_axial_buckets() > 1) ? acpb_p * sc->get_num_axial_blocks_per_bucket() : acpb_p;
+  const int unit_t = (!fl.sym_per_block && sc->get_num_transaxial_buckets() > 1) ? tcpb_p * sc->get_num_transaxial_blocks_per_bucket() : tcpb_p;
 
   // model projection data: positive everywhere
   ProjDataInMemory model_pd(ex, pdi);
@@ -881,9 +1480,35 @@ run_end_to_end(vh::Rng& rng, const Cfg& c, const std::string& prefix, bool poiss
   set_fan_data_add_gaps(measured_pd, mean_fan, 0.F);
 
   const int num_eff = 6, num_iter = 2;
-  const bool do_geo = tcpb_p % 2 == 0, do_block = true;
-  ML_estimate_component_based_normalisation(prefix, measured_pd, model_pd, num_eff, num_iter, do_geo, do_block,
-                                            /*do_symmetry_per_block*/ true, /*do_KL*/ false, /*do_display*/ false);
+  int iters_written = num_iter; // outer iterations whose files are compared
+  const bool do_geo = fl.do_geo && unit_t % 2 == 0, do_block = fl.do_block;
+  try
+    {
+      ML_estimate_component_based_normalisation(prefix, measured_pd, model_pd, num_eff, num_iter, do_geo, do_block, fl.sym_per_block,
+                                                fl.do_KL, /*do_display*/ false);
+    }
+  catch (const std::exception& e)
+    {
+      std::string what = e.what();
+      for (auto& ch : what)
+        if (ch == '\n' || ch == '\r')
+          ch = ' ';
+      if (fl.do_KL && what.find("format") != std::string::npos)
+        { // the files of the first outer iteration have been written: they are compared below
+          candidate(false, KEY_ML_KL, ctx + " ML_estimate_component_based_normalisation threw: " + what.substr(0, 160));
+          iters_written = 1;
+        }
+      else
+        {
+          oracle(false, "ml-estimate-throws", ctx + " ML_estimate_component_based_normalisation threw: " + what.substr(0, 160));
+          return;
+        }
+    }
+  catch (...)
+    {
+      oracle(false, "ml-estimate-throws", ctx + " ML_estimate_component_based_normalisation threw");
+      return;
+    }
 
   // the same computation from the building blocks (each of them checked above), step by step as documented
   FanProjData measured_fan, fan;
@@ -893,7 +1518,7 @@ run_end_to_end(vh::Rng& rng, const Cfg& c, const std::string& prefix, bool poiss
       measured_fan(ra, a, rb, b) = 0;
   });
   DetectorEfficiencies sums(IndexRange2D(Rp, Np)), eff(IndexRange2D(Rp, Np));
-  GeoData3D measured_geo(acpb_p, tcpb_p / 2, Rp, Np), norm_geo(acpb_p, tcpb_p / 2, Rp, Np);
+  GeoData3D measured_geo(unit_a, unit_t / 2, Rp, Np), norm_geo(unit_a, unit_t / 2, Rp, Np);
   BlockData3D measured_block(nab, ntb, nab - 1, ntb - 1), norm_block(nab, ntb, nab - 1, ntb - 1);
   make_fan_sum_data(sums, measured_fan);
   make_geo_data(measured_geo, measured_fan);
@@ -911,7 +1536,7 @@ run_end_to_end(vh::Rng& rng, const Cfg& c, const std::string& prefix, bool poiss
     oracle(ok, "ml-estimate-eff", ctx + " file " + what + " differs from the documented sequence of iterate_* steps");
   };
   double prev_kl = -1;
-  for (int iter = 1; iter <= num_iter; ++iter)
+  for (int iter = 1; iter <= iters_written; ++iter)
     {
       if (iter == 1)
         {
@@ -969,11 +1594,13 @@ run_end_to_end(vh::Rng& rng, const Cfg& c, const std::string& prefix, bool poiss
           oracle(false, "ml-estimate-output", ctx + " cannot read " + fn);
         else
           {
-            bool ok = true;
-            for_geo(model_fan, norm_geo, [&](int ra, int a, int rb, int b) {
-              if (!close_rel(from_file(ra, a, rb, b), norm_geo(ra, a, rb, b), 1e-5))
-                ok = false;
-            });
+            bool ok = from_file.get_num_axial_crystals_per_block() == unit_a
+                      && from_file.get_half_num_transaxial_crystals_per_block() == unit_t / 2;
+            if (ok)
+              for_geo(model_fan, norm_geo, [&](int ra, int a, int rb, int b) {
+                if (!close_rel(from_file(ra, a, rb, b), norm_geo(ra, a, rb, b), 1e-5))
+                  ok = false;
+              });
             oracle(ok, "ml-estimate-geo", ctx + str(" file geo_%d differs from the documented sequence of iterate_* steps", iter));
           }
       }
@@ -1000,7 +1627,7 @@ run_end_to_end(vh::Rng& rng, const Cfg& c, const std::string& prefix, bool poiss
           }
       }
     }
-  if (!poisson_data)
+  if (!poisson_data && iters_written == num_iter)
     { // data generated exactly from model*eff*eff: after the iterations the fan sums of the estimate reproduce those of the data
       FanProjData est = model_fan;
       apply_geo_norm(est, norm_geo);
@@ -1136,6 +1763,35 @@ main(int argc, char** argv)
     }
   for (int kind = 0; kind < 3; ++kind)
     run_error_config(rng, kind);
+  // the DetPairData family on the same scanners (every 2nd generated one in the quick tier)
+  for (std::size_t i = 0; i < cfgs.size(); ++i)
+    if (thorough || i < 6 || i % 2 == 0)
+      {
+        run_detpair(rng, cfgs[i], thorough);
+        std::fflush(g_ops);
+        std::fflush(g_out);
+        std::fflush(g_orc);
+      }
+  // multiply_crystal_factors: span 1 / 3, view mashing, TOF, scanners with virtual crystals (span 3 with max ring difference 4 or 1:
+  // complete segments, cf. the known finding of C01 on clipped outermost segments)
+  {
+    const int reps = thorough ? 6 : 1;
+    for (int rep = 0; rep < reps; ++rep)
+      for (int type = 0; type <= 2; ++type)
+        for (int variant = 0; variant < 6; ++variant)
+          {
+            Cfg c{ type, rep % 2 ? 6 : 4, rep % 3 == 2 ? 4 : 2, 3, 2, 0, 0 };
+            const int N = c.ntb * (c.tcpb_phys + (type >= 1)), R = c.nab * (c.acpb_phys + (type == 2)) - (type == 2);
+            const int span = variant == 1 || variant == 3 || variant == 5 ? 3 : 1;
+            const int mash = variant == 2 || variant == 3 ? 2 : 1;
+            const bool tof = variant >= 4;
+            if ((N / 2) % mash)
+              continue;
+            c.max_delta = span == 3 ? (rng.coin() ? 4 : 1) : rng.range(0, R - 1);
+            c.num_tang = rng.range(3, N - 1);
+            run_mcf(rng, c, span, mash, tof);
+          }
+  }
   {
     const std::string prefix = std::string(argv[4]) + "_ml";
     run_end_to_end(rng, Cfg{ 0, 4, 2, 2, 2, 3, 5 }, prefix + "0", false);
@@ -1146,12 +1802,31 @@ main(int argc, char** argv)
         run_end_to_end(rng, Cfg{ 1, 6, 2, 1, 2, 1, 7 }, prefix + "3", true);
         run_end_to_end(rng, Cfg{ 0, 6, 4, 3, 1, 2, 9 }, prefix + "4", false);
       }
+    // once per flag combination, on scanners with several blocks per bucket (2 x 2 transaxial, 2 x 2 / 1 x 2 axial buckets)
+    int k = 5;
+    for (int bits = 0; bits < 16; ++bits)
+      {
+        MLFlags fl;
+        fl.do_geo = bits & 1;
+        fl.do_block = bits & 2;
+        fl.sym_per_block = bits & 4;
+        fl.do_KL = bits & 8;
+        Cfg c{ bits % 3 == 2 ? 2 : 0, 4, 2, 4, 1, 3, 5, /*axial blocks per bucket*/ 2, /*transaxial*/ 2 };
+        if (bits % 2)
+          c = Cfg{ 1, 4, 2, 2, 2, 3, 5, 2, 2 }; // one axial bucket of 2 blocks, transaxial virtual crystals
+        run_end_to_end(rng, c, prefix + str("%d", k++), bits % 4 != 0, fl);
+        if (thorough)
+          run_end_to_end(rng, Cfg{ 0, 6, 2, 2, 2, 2, 7, 1, 3 }, prefix + str("%d", k++), true, fl);
+      }
   }
 
   std::fprintf(g_orc,
-               "INFO configs=%ld with_gaps=%ld window_bins=%ld fan_entries=%ld block_skipped=%ld geo_skipped=%ld kl_runs=%ld\n",
-               g_stats.configs, g_stats.gap_configs, g_stats.bins, g_stats.entries, g_stats.block_skipped, g_stats.geo_skipped,
-               g_stats.kl_runs);
+               "INFO configs=%ld with_gaps=%ld window_bins=%ld fan_entries=%ld block_same_block_in_fan=%ld geo_one_crystal_per_block=%ld "
+               "geo_odd_crystals_per_block=%ld kl_runs=%ld detpair_configs=%ld detpair_sinogram_pairs=%ld detpair_entries=%ld "
+               "multiply_crystal_factors_configs=%ld multiply_crystal_factors_bins=%ld ml_estimate_runs=%ld\n",
+               g_stats.configs, g_stats.gap_configs, g_stats.bins, g_stats.entries, g_stats.block_same_block, g_stats.geo_skipped,
+               g_stats.geo_odd, g_stats.kl_runs, g_stats.dp_configs, g_stats.dp_sinograms, g_stats.dp_entries, g_stats.mcf_configs,
+               g_stats.mcf_bins, g_stats.ml_runs);
   std::fprintf(g_orc, "ORACLE-DONE checks=%ld fails=%ld candidates=%ld\n", g_checks, g_fails, g_candidates);
   std::fclose(g_ops);
   std::fclose(g_out);
